@@ -303,6 +303,15 @@ func cmdCheck(args []string) int {
 				// harness: the labels differ in the pair of code locations only
 				gk = "race"
 			}
+			// candidates that a listed known finding describes are replayed in a group of
+			// their own, so that they cannot stand in for a different violation under the
+			// same label
+			for k := range findings {
+				if findings[k].matches(id, hm.Name, &v) {
+					gk += fmt.Sprintf("|known#%d", k)
+					break
+				}
+			}
 			g := groups[gk]
 			if g == nil {
 				g = &group{}
